@@ -3,7 +3,7 @@
    generated struct type (model decode = ReadFrom, model encode(decode) = WriteTo, byte-exact). *)
 From Coq Require Import List NArith ZArith Sorted.
 From TarsV Require Import Base.Hex Codec.Wire Codec.Skip Codec.SkipProofs Codec.Prim Codec.PrimProofs Codec.GenCodec Codec.Corr Codec.GenProofs
-  Codec.RoundTrip Codec.RoundTripProofs Codec.NormProofs Codec.WireSpec Codec.WireSpecProofs Codec.RoundTripExamples Codec.CanonProofs Codec.CanonExamples Codec.CorrT Gen.Schemas.
+  Codec.RoundTrip Codec.RoundTripProofs Codec.NormProofs Codec.WireSpec Codec.WireSpecProofs Codec.RoundTripExamples Codec.CanonProofs Codec.TypedProofs Codec.CanonExamples Codec.CorrT Gen.Schemas.
 Import ListNotations.
 Open Scope N_scope.
 
@@ -141,6 +141,19 @@ Theorem C03_code_schemas_encode_injective : forall sid vs1 vs2, fits_model sid =
   has_type env0 (TStruct sid) (VStruct vs1) -> has_type env0 (TStruct sid) (VStruct vs2) ->
   (encode env0 sid (VStruct vs1) = encode env0 sid (VStruct vs2) <-> norm_struct env0 sid (VStruct vs1) = norm_struct env0 sid (VStruct vs2)).
 Proof. exact CanonExamples.env0_encode_injective. Qed.
+(* EXACTLY there: on an accepted input (every byte < 256, shorter than 2^31, everything consumed) decode-then-encode
+   gives the input back if and only if the input is the encoding of a well-typed value - the non-canonical accepted
+   inputs are precisely those outside the encoder's image (uses C06_decode_typed: what the decoder returns is well typed) *)
+Theorem C03_reencode_exact : forall e k n sid bs v,
+  wf_schema k e -> defaults_typed e -> arrs_ok e -> (S k <= 64)%nat ->
+  tfin n e (TStruct sid) = true -> (tneed n e (TStruct sid) + k <= 64)%nat ->
+  bytes_ok bs -> lenok bs -> decode e sid bs = DOk v [] ->
+  (encode e sid v = bs <-> exists vs, has_type e (TStruct sid) (VStruct vs) /\ bs = encode e sid (VStruct vs)).
+Proof. exact TypedProofs.reencode_exact. Qed.
+Theorem C03_code_schemas_reencode_exact : forall sid bs v, fits_model sid = true -> bytes_ok bs -> lenok bs ->
+  decode env0 sid bs = DOk v [] ->
+  (encode env0 sid v = bs <-> exists vs, has_type env0 (TStruct sid) (VStruct vs) /\ bs = encode env0 sid (VStruct vs)).
+Proof. exact CanonExamples.env0_reencode_exact. Qed.
 (* ... and ONLY there: "decode-then-encode is the identity on every ACCEPTED input" is false. The readers accept more
    than the writers produce, by design of the wire format (readers widen): an integer in a wider-than-narrowest
    width, STRING4 for a short string, a member present at its default, ZeroTag for a float, a double sent as FLOAT,
@@ -198,6 +211,8 @@ Print Assumptions C03_reencode_canonical.
 Print Assumptions C03_encode_injective.
 Print Assumptions C03_code_schemas_reencode_canonical.
 Print Assumptions C03_code_schemas_encode_injective.
+Print Assumptions C03_reencode_exact.
+Print Assumptions C03_code_schemas_reencode_exact.
 Print Assumptions C03_reencode_identity_refuted.
 Print Assumptions C03_noncanonical_images.
 Print Assumptions C03_shapes_roundtrip.
